@@ -357,6 +357,109 @@ func mutatedParams(w *World) map[*ssa.Function]map[int]string {
 	return sum
 }
 
+type frameFinding struct {
+	rule, what, pos string
+	typ             types.Type // type of the written storage when it is a sequence (slice / array element), else nil
+}
+
+// scanFrame: the writes of fn that leave fresh / per-instance storage.
+func scanFrame(w *World, fn *ssa.Function, mparams map[*ssa.Function]map[int]string, nWrites *int) []frameFinding {
+	const ruleFrame = "C14/model-frame"
+	const ruleGlobal = "C14/no-shared-state"
+	var fs []frameFinding
+		forEachInstr(fn, func(b *ssa.BasicBlock, ins ssa.Instruction) {
+			switch x := ins.(type) {
+			case *ssa.Store:
+				*nWrites++
+				cls, via := w.baseClass(x.Addr)
+				switch cls {
+				case "model":
+					fs = append(fs, frameFinding{ruleFrame, fmt.Sprintf("store to %s through a shared %s", describeTarget(x.Addr), via), w.instrPos(ins), storeSeqType(x.Addr)})
+				case "global":
+					fs = append(fs, frameFinding{ruleGlobal, fmt.Sprintf("store to package-level variable %s", via), w.instrPos(ins), nil})
+				}
+			case *ssa.MapUpdate:
+				*nWrites++
+				cls, via := w.baseClass(x.Map)
+				switch cls {
+				case "model":
+					fs = append(fs, frameFinding{ruleFrame, fmt.Sprintf("map update on %s reached through shared %s", describeTarget(x.Map), via), w.instrPos(ins), nil})
+				case "global":
+					fs = append(fs, frameFinding{ruleGlobal, fmt.Sprintf("map update on package-level map %s", via), w.instrPos(ins), nil})
+				}
+			case ssa.CallInstruction:
+				cc := x.Common()
+				if f := cc.StaticCallee(); f != nil {
+					if mp := mparams[f]; mp != nil {
+						for i, why := range mp {
+							if i >= len(cc.Args) {
+								continue
+							}
+							cls, via := w.baseClass(cc.Args[i])
+							if cls == "model" || cls == "global" {
+								fs = append(fs, frameFinding{ruleFrame, fmt.Sprintf("passes storage reached through shared %s to %s, which %s", via, fnKey(f), why), w.instrPos(ins), cc.Args[i].Type()})
+							}
+						}
+					}
+					n := f.String()
+					if i := strings.Index(n, "["); i > 0 {
+						n = n[:i]
+					}
+					if idx, ok := inPlaceMutators[n]; ok && idx < len(cc.Args) {
+						*nWrites++
+						cls, via := w.baseClass(cc.Args[idx])
+						if cls == "model" || cls == "global" {
+							fs = append(fs, frameFinding{ruleFrame, fmt.Sprintf("%s mutates in place a slice reached through shared %s", n, via), w.instrPos(ins), sliceArgType(cc.Args[idx])})
+						}
+					}
+					if strings.HasPrefix(n, "github.com/iancoleman/strcase.Configure") {
+						fs = append(fs, frameFinding{ruleGlobal, "call to " + n + " changes process-wide case-conversion state", w.instrPos(ins), nil})
+					}
+				}
+				if b, ok := cc.Value.(*ssa.Builtin); ok && b.Name() == "append" && len(cc.Args) > 0 {
+					// append(x[:n], ...) writes into x's visible backing array when x is shared
+					if sl := reslicedBase(cc.Args[0]); sl != nil {
+						*nWrites++
+						cls, via := w.baseClass(sl.X)
+						if cls == "model" || cls == "global" {
+							fs = append(fs, frameFinding{ruleFrame, fmt.Sprintf("append onto a re-slice (x[:n]) of a slice reached through shared %s overwrites its elements in place", via), w.instrPos(ins), sl.X.Type()})
+						}
+					}
+				}
+				if b, ok := cc.Value.(*ssa.Builtin); ok && (b.Name() == "copy" || b.Name() == "clear" || b.Name() == "delete") && len(cc.Args) > 0 {
+					*nWrites++
+					cls, via := w.baseClass(cc.Args[0])
+					if cls == "model" || cls == "global" {
+						fs = append(fs, frameFinding{ruleFrame, fmt.Sprintf("%s() on storage reached through shared %s", b.Name(), via), w.instrPos(ins), cc.Args[0].Type()})
+					}
+				}
+			}
+		})
+	return fs
+}
+
+// storeSeqType: the slice type when addr is an element of a slice (x[i] = ...), or the type of a slice-typed member being replaced.
+func storeSeqType(addr ssa.Value) types.Type {
+	switch a := addr.(type) {
+	case *ssa.IndexAddr:
+		return a.X.Type()
+	case *ssa.FieldAddr:
+		if p, ok := a.Type().(*types.Pointer); ok {
+			if _, isSl := p.Elem().Underlying().(*types.Slice); isSl {
+				return p.Elem()
+			}
+		}
+	}
+	return nil
+}
+
+func sliceArgType(v ssa.Value) types.Type {
+	if mi, ok := v.(*ssa.MakeInterface); ok {
+		return mi.X.Type()
+	}
+	return v.Type()
+}
+
 func c14Subjects(w *World) ([]*ssa.Function, error) {
 	gens, err := w.generateFuncs()
 	if err != nil {
@@ -413,76 +516,7 @@ func runC14(w *World, r *Report) {
 	nWrites := 0
 	mparams := mutatedParams(w)
 	for _, fn := range subjects {
-		type finding struct{ rule, what, pos string }
-		var fs []finding
-		forEachInstr(fn, func(b *ssa.BasicBlock, ins ssa.Instruction) {
-			switch x := ins.(type) {
-			case *ssa.Store:
-				nWrites++
-				cls, via := w.baseClass(x.Addr)
-				switch cls {
-				case "model":
-					fs = append(fs, finding{ruleFrame, fmt.Sprintf("store to %s through a shared %s", describeTarget(x.Addr), via), w.instrPos(ins)})
-				case "global":
-					fs = append(fs, finding{ruleGlobal, fmt.Sprintf("store to package-level variable %s", via), w.instrPos(ins)})
-				}
-			case *ssa.MapUpdate:
-				nWrites++
-				cls, via := w.baseClass(x.Map)
-				switch cls {
-				case "model":
-					fs = append(fs, finding{ruleFrame, fmt.Sprintf("map update on %s reached through shared %s", describeTarget(x.Map), via), w.instrPos(ins)})
-				case "global":
-					fs = append(fs, finding{ruleGlobal, fmt.Sprintf("map update on package-level map %s", via), w.instrPos(ins)})
-				}
-			case ssa.CallInstruction:
-				cc := x.Common()
-				if f := cc.StaticCallee(); f != nil {
-					if mp := mparams[f]; mp != nil {
-						for i, why := range mp {
-							if i >= len(cc.Args) {
-								continue
-							}
-							cls, via := w.baseClass(cc.Args[i])
-							if cls == "model" || cls == "global" {
-								fs = append(fs, finding{ruleFrame, fmt.Sprintf("passes storage reached through shared %s to %s, which %s", via, fnKey(f), why), w.instrPos(ins)})
-							}
-						}
-					}
-					n := f.String()
-					if i := strings.Index(n, "["); i > 0 {
-						n = n[:i]
-					}
-					if idx, ok := inPlaceMutators[n]; ok && idx < len(cc.Args) {
-						nWrites++
-						cls, via := w.baseClass(cc.Args[idx])
-						if cls == "model" || cls == "global" {
-							fs = append(fs, finding{ruleFrame, fmt.Sprintf("%s mutates in place a slice reached through shared %s", n, via), w.instrPos(ins)})
-						}
-					}
-					if strings.HasPrefix(n, "github.com/iancoleman/strcase.Configure") {
-						fs = append(fs, finding{ruleGlobal, "call to " + n + " changes process-wide case-conversion state", w.instrPos(ins)})
-					}
-				}
-				if b, ok := cc.Value.(*ssa.Builtin); ok && b.Name() == "append" && len(cc.Args) > 0 {
-					// append(x[:n], ...) writes into x's visible backing array when x is shared
-					if sl := reslicedBase(cc.Args[0]); sl != nil {
-						nWrites++
-						cls, via := w.baseClass(sl.X)
-						if cls == "model" || cls == "global" {
-							fs = append(fs, finding{ruleFrame, fmt.Sprintf("append onto a re-slice (x[:n]) of a slice reached through shared %s overwrites its elements in place", via), w.instrPos(ins)})
-						}
-					}
-				}
-				if b, ok := cc.Value.(*ssa.Builtin); ok && (b.Name() == "copy" || b.Name() == "clear" || b.Name() == "delete") && len(cc.Args) > 0 {
-					nWrites++
-					cls, via := w.baseClass(cc.Args[0])
-					if cls == "model" || cls == "global" {
-						fs = append(fs, finding{ruleFrame, fmt.Sprintf("%s() on storage reached through shared %s", b.Name(), via), w.instrPos(ins)})
-					}
-				}
-			}
-		})
+		fs := scanFrame(w, fn, mparams, &nWrites)
 		if len(fs) == 0 {
 			r.pass(ruleFrame, fnKey(fn), w.pos(fn.Pos()), "no write outside fresh/instance storage")
 			continue
